@@ -12,7 +12,7 @@ ID = 'C16'
 RULE = ('(a) exhaustive: every table of 1..3 (quick) / 1..4 (thorough) rows over the 8 possible rows, in presentation '
         'variants (geo column/index, int/str IDs, int/float/bool and pandas-nullable Int64/boolean/Float64 cells, extra (partly empty) column, value columns in any order, non-default row labels when geo is a column), each accepted table queried with '
         'every non-empty ordered subset of its geos x indices in {False, True} and with None (for half of the tables through ONE list object edited in place between consecutive queries); every single malformed '
-        'mutation (column dropped, geo absent, duplicate ID incl. 1 vs "1", cell in {2,-1,0.5,NaN,None,"1",<NA> in a nullable column}, duplicated '
+        'mutation (column dropped, geo absent, duplicate ID incl. 1 vs "1" and two missing IDs, cell in {2,-1,0.5,NaN,None,"1",<NA> in a nullable column}, duplicated '
         'value column) of a legal table; (b) Hypothesis: tables up to 10 rows with drawn subsets and mutations. '
         'Non-trivial = accepted table with >=2 distinct row types and >=3 rows (so proper reordered subsets exist) or a '
         'table carrying a malformed mutation or an all-zero row; distinct by spec hash.')
@@ -43,6 +43,8 @@ def _mutations(n_rows):
       for v in CELL_BAD:
         muts.append({'kind': 'cell', 'i': i, 'col': c, 'val': v})
   if n_rows >= 2:
+    muts.append({'kind': 'missingid', 'i': 0, 'j': n_rows - 1, 'val': 'none'})
+    muts.append({'kind': 'missingid', 'i': 0, 'j': n_rows - 1, 'val': 'nan'})
     muts.append({'kind': 'dupid', 'i': 0, 'j': n_rows - 1, 'mixed': False})
     muts.append({'kind': 'dupid', 'i': 0, 'j': n_rows - 1, 'mixed': True})
   return muts
@@ -121,6 +123,11 @@ def build_frame(spec):
       v = ids2[mut['i']]
       ids2[mut['j']] = str(v) if not isinstance(v, str) else (int(v) if v.isdigit() else v)
     cols['geo'] = ids2
+  if mut and mut['kind'] == 'missingid':
+    # two rows without a geo ID: the IDs are not unique
+    ids2 = list(cols['geo'])
+    ids2[mut['i']] = ids2[mut['j']] = (None if mut['val'] == 'none' else float('nan'))
+    cols['geo'] = ids2
   nullable = {}
   if mut and mut['kind'] == 'cell':
     if mut['val'].startswith('NA-'):
@@ -132,7 +139,7 @@ def build_frame(spec):
     lst = list(cols[mut['col']])
     lst[mut['i']] = val
     cols[mut['col']] = lst
-  df = pd.DataFrame({k: pd.Series(v, dtype=object) if (mut and mut['kind'] in ('cell', 'dupid') and k in (mut.get('col'), 'geo')
+  df = pd.DataFrame({k: pd.Series(v, dtype=object) if (mut and mut['kind'] in ('cell', 'dupid', 'missingid') and k in (mut.get('col'), 'geo')
                                                        and any(isinstance(x, str) or x is None for x in v)
                                                        and any(not isinstance(x, str) for x in v)) else v
                      for k, v in cols.items()})
